@@ -28,7 +28,11 @@ Logic == {And(a, b) : a \in {X, Cmp("==", X, Y)}, b \in {Y, Not(Y), Cmp("<", X, 
                And(X, Cmp("==", Y, I(1))), Or(Cmp(">=", X, I(1)), Cmp("<=", Y, I(1)))}
 \* every tree of depth <= 2 over and / or / not (grouping and its serialisation, C12)
 T1 == {X, Y, Not(X), Not(Y), And(X, Y), Or(X, Y), Not(And(X, Y)), Not(Or(X, Y))}
+Lit1 == {X, Y, Not(X), Not(Y)}
+Pairs == {And(p, q) : p \in Lit1, q \in Lit1} \cup {Or(p, q) : p \in Lit1, q \in Lit1}
 Trees == {And(l, r) : l \in T1, r \in T1} \cup {Or(l, r) : l \in T1, r \in T1}
+         \cup {And(pq, r) : pq \in Pairs, r \in {X, Not(Y)}} \cup {Or(pq, r) : pq \in Pairs, r \in {X, Not(Y)}}
+         \cup {And(r, pq) : pq \in Pairs, r \in {X, Not(Y)}} \cup {Or(r, pq) : pq \in Pairs, r \in {X, Not(Y)}}
 Conds == Atoms \cup Cmps \cup Logic \cup Trees
 
 OpsPool == {If(c, <<NText("T")>>, <<>>, Else(<<NText("F")>>)) : c \in Atoms \cup Cmps \cup Logic}
